@@ -209,4 +209,3 @@ func (r *e1Run) doSchema(step, node, kind, arg int) {
 	// (b) readable under the active version, added fields null / previously written values back
 	r.checkNode(step, node, "schema change: "+what)
 }
-
